@@ -37,7 +37,9 @@ def raw(v):
 # value kinds (JSON-able descriptors, see prog.pyval)
 VALS = [5, -3, 2.5, ["$dec", "1.50"], "s'x", "pl%s?$1", True, False, ["$date", "2020-02-29"], ["$dt", "2021-12-31T23:59:59"],
         ["$time", "01:02:03"], ["$uuid", "12345678-1234-5678-1234-567812345678"], ["$dict", [["k", "v'"]]],
-        ["$enum", "red"], ["$enum", "two"], "*", 0, ""]
+        ["$enum", "red"], ["$enum", "two"], "*", 0, "",
+        # floats whose shortest text uses an exponent, very large / very small, negative zero, big ints
+        2.5e-07, -4.25e-08, 1.5e+30, 1e-05, -0.0, 1234567890123456789]
 
 
 def sub_with_value(v, key="sq"):
@@ -205,6 +207,24 @@ def value_sweep(tier):
         yield {"calls": [["from", T], ["select", [["valnp", 424242], fa]], ["where", ["in", fa, [raw(v), ["valnp", 424242]]]]]}
         yield {"calls": [["from", T], ["select", [["coalesce", [fa, raw(v)]], ["case", [[["cmp", "=", fa, raw(v)], raw(v)]], raw(v)]]]]}
         yield {"calls": [["from", T], ["select", [fa]], ["where", ["cmp", "=", fa, raw(v)]], ["union", {"calls": [["from", U], ["select", [ux]], ["where", ["cmp", "=", uy, raw(v)]]]}]]}
+    # one criterion / function / CASE / subquery used in two places of a statement (shared-object mode makes them one object)
+    C = ["cmp", "=", fa, raw(5)]
+    SUBP = {"calls": [["from", U], ["select", [ux]], ["where", ["cmp", "=", uy, raw("s")]], ["limit", 2]]}
+    F = ["coalesce", [fb, raw(7)]]
+    K = ["case", [[C, raw("hit")]], raw("miss")]
+    yield {"calls": [["from", T], ["select", [fa]], ["where", C], ["groupby", [fa]], ["having", C]]}
+    yield {"calls": [["from", T], ["select", [fa]], ["where", C], ["where", C]]}
+    # members that occur more than once in an IN list / tuple / row
+    yield {"calls": [["from", T], ["select", [fa]], ["where", ["logic", "AND", ["in", fa, [raw(3), raw(5), raw(3), raw(8), raw(5)]],
+                                                               ["in", fb, [raw("a"), raw("b"), raw("a")], True]]]]}
+    yield {"calls": [["from", T], ["select", [["tuple", [raw(1), raw(1), fa]]]], ["where", ["in", fa, [raw(7), raw("7"), raw(7.0)]]]]}
+    yield {"calls": [["into", T], ["insert", [raw(1), raw(1), raw("1")]]]}
+    yield {"calls": [["from", T], ["select", [fa, K]], ["where", ["logic", "OR", C, ["cmp", "=", K, raw("hit")]]]]}
+    yield {"calls": [["from", T], ["select", [F]], ["where", ["cmp", ">", F, raw(1)]], ["orderby", [F], "asc"]]}
+    yield {"calls": [["from", T], ["select", [fa]], ["where", ["logic", "AND", ["insub", fa, SUBP], ["insub", fb, SUBP]]]]}
+    yield {"calls": [["from", T], ["select", [fa, ["subq", SUBP]]], ["where", ["cmp", "=", fb, ["subq", SUBP]]]]}
+    yield {"calls": [["from", T], ["select", [["lit", 5], ["lit", 5], ["arith", "+", ["lit", 5], ["lit", 5]]]], ["where", ["between", fa, ["lit", 5], ["lit", 5]]]]}
+    yield {"calls": [["from", T], ["select", [fa]], ["where", C], ["union", {"calls": [["from", T], ["select", [fa]], ["where", C]]}], ["union_all", {"calls": [["from", T], ["select", [fa]], ["where", C]]}]]}
     # row-limiting values given as terms (a wrapper that must stay inline, an expression over constants)
     for e in (["valnp", 3], ["arith", "*", ["lit", 2], ["raw", 5]], ["lit", 4]):
         yield {"calls": [["from", T], ["select", [fa]], ["where", ["cmp", "=", fa, raw(7)]], ["limit", e]]}
@@ -509,6 +529,15 @@ def run_case(case):
                     want.append(sql_p[last:t.start] + ":v%d" % (t.value if isinstance(t.value, int) and d == "postgresql" else k))
                     last = t.end
             want = "".join(want) + sql_p[last:]
+            if callable(getattr(type(o), "get_parameterized_sql", None)):
+                # the caller's parameterizer handed over in the context of get_parameterized_sql(): it is the one that is used
+                pz3 = Parameterizer(placeholder_factory=lambda k: ":v%d" % k)
+                g_sql, g_vals = prog.build(p, dialect=d).get_parameterized_sql(fp.CTX[d].copy(parameterizer=pz3))
+                res.transitions += 1
+                if g_sql != c_sql or fp.vrepr(g_vals) != fp.vrepr(pz1.values) or fp.vrepr(pz3.values) != fp.vrepr(pz1.values):
+                    res.violate("C04|caller-parameterizer-ignored|%s" % d, "get_parameterized_sql(ctx) does not use the (still empty) parameterizer "
+                                "the caller put into ctx", program=p, dialect=d, got=g_sql, expected=c_sql, got_values=fp.vrepr(g_vals),
+                                callers_values=fp.vrepr(pz3.values))
             if c_sql != want or fp.vrepr(pz1.values) != fp.vrepr(vals):
                 res.violate("C04|placeholder-factory|%s" % d, "with a placeholder factory the statement is not the default parameterised statement with "
                             "the k-th placeholder respelled (or the values differ)", program=p, dialect=d, got=c_sql, expected=want,
@@ -521,6 +550,12 @@ def run_case(case):
         except Exception as e:
             res.violate("C04|custom-parameterizer|%s|raises|%s" % (d, type(e).__name__), "rendering with a caller-supplied parameterizer raised",
                         program=p, dialect=d, error=str(e)[:200])
+    # the same program with every repeated sub-expression / subquery being one shared object
+    sd = prog.shared_objects_diff(p, d)
+    res.transitions += 6
+    if sd is not None:
+        res.violate("C04|shared-objects|%s" % d, "the statement (or its parameter list) changes when equal sub-expressions are one shared object",
+                    program=p, dialect=d, **sd)
     if sql_i is None or sql_p is None:
         if (sql_i is None) != (sql_p is None):
             res.violate("C04|%s|raises-one-form" % d, "one of the two renderings raises, the other does not", program=p, dialect=d)
